@@ -413,6 +413,13 @@ func (d *Driver) Apply(o Op, m *Model) Res {
 		return Res{VID: d.canonVID(r.VersionID), ETag: r.ETag, Ck: ckMap(r.ChecksumCRC32, r.ChecksumCRC32C, r.ChecksumCRC64NVME, r.ChecksumSHA1, r.ChecksumSHA256, r.ChecksumType)}
 	case "Abort":
 		return Res{Err: ErrKind(s.AbortMultipartUpload(ctx, bn, key, d.rawUID(o.U)))}
+	case "DeleteObjects":
+		var entries []storage.DeleteObjectsInputEntry
+		for _, k := range o.Parts {
+			entries = append(entries, storage.DeleteObjectsInputEntry{Key: storage.MustNewObjectKey(k)})
+		}
+		_, err := s.DeleteObjects(ctx, bn, entries)
+		return Res{Err: ErrKind(err)}
 	case "Mpu":
 		res := Res{}
 		cr := d.Apply(Op{Kind: "CreateUpload", B: o.B, K: o.K, Opt: o.Opt}, m)
@@ -565,6 +572,9 @@ func (d *Driver) readObjectRaw(bn storage.BucketName, key storage.ObjectKey, vid
 		}
 		if obj.Size != int64(len(body)) {
 			diffs = append(diffs, Diff{Class: "content", Where: where + ".size-vs-body", Model: fmt.Sprint(len(body)), Impl: fmt.Sprint(obj.Size)})
+		}
+		if !strings.Contains(obj.ETag, "-") && obj.ETag != "\""+md5hex(body)+"\"" {
+			diffs = append(diffs, Diff{Class: "etag", Where: where + ".etag-vs-body", Model: "\"" + md5hex(body) + "\"", Impl: obj.ETag, Detail: "ETag does not describe the served bytes"})
 		}
 	}
 	return obj, body, "ok", diffs
@@ -753,4 +763,14 @@ func (d *Driver) CloneFor(s storage.Storage) *Driver {
 	c := *d
 	c.S = s
 	return &c
+}
+
+// SetUpload registers the raw id of an upload ordinal (used when a driver is created for a
+// world that was prepared by another driver, e.g. in a crash child).
+func (d *Driver) SetUpload(ord int, raw string) {
+	d.uids[ord] = raw
+	d.ruids[raw] = ord
+	if ord > d.nextU {
+		d.nextU = ord
+	}
 }
